@@ -13,8 +13,9 @@
    * The headline theorems compare the yielded SEQUENCE (`fst`).  The termination kind (`snd`) appears as: never an
      exception and one of COUNT / UNTIL / year-9999 / limit / fuel under coarse_guard_all (C01_rrule_term_kinds_partial),
      a finished run is complete (C01_rrule_complete_headline_partial); for sub-daily FREQ a raise happens only when
-     the specification has nothing more, for ANY exception class (C01_subdaily_raise_is_end_partial) -- "only
-     ValueError" is not a theorem there.  That some fuel ends every run (`snd <> TOutOfFuel`) is not stated.
+     the specification has nothing more (C01_subdaily_raise_is_end_partial) and its class is ValueError
+     (C01_subdaily_raise_is_valueerror_partial); the constructor raises only ValueError for EVERY argument record
+     (C01_normalize_only_valueerror).  That some fuel ends every run (`snd <> TOutOfFuel`) is not stated.
    * "Whole-second resolution and the start's tzinfo" hold BY CONSTRUCTION of the model's instant type
      (ordinal, second of day; tzinfo is opaque) -- they are checked on every yielded value by the harness, not proved.
      Aware datetimes are modelled on the start's wall clock with a constant offset; a start in a DST zone with a UTC
@@ -22,8 +23,7 @@
    * `_partial` hides exactly: BYEASTER outside 1583..4098 and under sub-daily FREQ; BYWEEKNO members beyond +-53;
      every rule outside spec_wf (the extended domain RRSpecX.spec_xwf -- never-matching time members, BYMONTHDAY 0 --
      is compared by the harness: the constructor must raise ValueError or the sequence must be empty; two regression
-     theorems below); the exception class for sub-daily FREQ; no-exception / term kinds under the BYEASTER branch of
-     full_guard.  The four findings of the audit round (week containing 9999-12-31, first week before 0001-01-01,
+     theorems below); no-exception / term kinds under the BYEASTER branch of full_guard.  The four findings of the audit round (week containing 9999-12-31, first week before 0001-01-01,
      TypeError for out-of-range members, BYMONTHDAY=0) were fixed in /repo (8ced7a9, 3426f68, e1e7505, 55654b4); the
      model follows the fixed source, the WEEKLY guards that excluded the two boundary weeks are gone, and the former
      `_refuted` witnesses are the C01_regress_* theorems at the end of the rr part. *)
@@ -39,7 +39,7 @@ From V Require Import base.Cal gen.RrTables rr.RRBase rr.RRNorm rr.RRMasks rr.RR
   rr.RRDailyFullThm rr.RRWeeklySetposThm rr.RRYearlyMonthNthThm rr.RRSortedThm rr.RRCoarseTop rr.RRNoRaise rr.RRStripThm rr.RRStripSubThm rr.RRValidThm rr.RRCompleteThm
   rr.RRSubSpBase rr.RRSubSpPass rr.RRSubSpFam rr.RRSubSpSame rr.RRSubSpAll rr.RRSubSorted rr.RRSubSpOrder rr.RRSubSpTerm
   rr.RRAllFreqTop rr.RRDailyEasterThm rr.RRWeeklyEasterThm rr.RREasterTop rr.RRWkEasterStrip rr.RRNthEasterThm rr.RRFullTop
-  rr.RRSpecX rr.RRFindings rr.RRFullCorollaries.
+  rr.RRSpecX rr.RRFindings rr.RRFullCorollaries rr.RRCtorErr rr.RRSubRaise.
 Import ListNotations.
 Open Scope Z_scope.
 
@@ -1053,6 +1053,15 @@ Theorem C01_subdaily_raise_is_end_partial : forall r rl fr, normalize r = Ok rl 
 Proof. exact subdaily_all_raise_is_end. Qed.
 Print Assumptions C01_subdaily_raise_is_end_partial.
 
+(* ... and the class of such a raise is ValueError: "only ValueError" for every sub-daily rule of the domain without
+   BYEASTER (builder rset, RRSubRaise.v; since fix e1e7505 and the range test in construct_byset the TypeError of
+   __mod_distance's None cannot occur inside the domain -- outside it the constructor raises ValueError first) *)
+Theorem C01_subdaily_raise_is_valueerror_partial : forall r rl fr, normalize r = Ok rl -> sfam_sa r fr ->
+  fr = HOURLY \/ fr = MINUTELY \/ fr = SECONDLY ->
+  forall limit n e, snd (iterate rl limit n) = TRaised e -> e = EValue.
+Proof. exact subdaily_all_raise_is_valueerror. Qed.
+Print Assumptions C01_subdaily_raise_is_valueerror_partial.
+
 (* the specification's sequence is strictly increasing for EVERY rule of its domain (all seven frequencies) *)
 Theorem C01_spec_iter_strictly_increasing_all : forall r, spec_wf r = true ->
   forall limit n, isorted (fst (spec_iter r limit n)).
@@ -1136,6 +1145,12 @@ Print Assumptions C01_rrule_term_kinds_partial.
 Theorem C01_spec_wf_xwf : forall r, spec_wf r = true -> spec_xwf r = true.
 Proof. exact spec_wf_xwf. Qed.
 Print Assumptions C01_spec_wf_xwf.
+
+(* "Only ValueError may be raised ... when built": the constructor model raises nothing else, for EVERY argument
+   record -- no domain hypothesis (C01_gen_init_is_model ties the model to rrule.__init__'s source) *)
+Theorem C01_normalize_only_valueerror : forall r e, normalize r = Err e -> e = EValue.
+Proof. exact normalize_only_valueerror. Qed.
+Print Assumptions C01_normalize_only_valueerror.
 
 (* rrule(WEEKLY, dtstart=9999-12-20 09:00, byweekday=all seven, bysetpos=-1): before 8ced7a9 [9999-12-26] + ValueError *)
 Theorem C01_regress_last_week_9999_setpos :
